@@ -1692,6 +1692,12 @@ impl<F: Send + 'static> Sampler<F> {
         let result = self.main_thread.join();
         match result {
             Err(payload) => std::panic::resume_unwind(payload),
+            // A chain that failed has sent its error on the result channel. If nobody
+            // picked it up yet, report it next to the trace instead of dropping it.
+            Ok(Ok((None, trace))) => {
+                let chain_error = self.results.try_iter().find_map(|result| result.err());
+                Ok((chain_error, trace))
+            }
             Ok(Ok(val)) => Ok(val),
             Ok(Err(err)) => Err(err),
         }
